@@ -162,3 +162,23 @@ def grammar(run, tag, kinds, shapes, want=None, replay=True):
         replay_events(run, res["events"], want or {run.prop}, "replay:" + tag)
     run.exhaustive = True
     return res
+
+
+OUTCOME_CFG = """INIT Init
+NEXT Next
+CONSTANTS
+  FloatRankUsesIndex = %(defect)s
+  MaxN = %(maxn)d
+INVARIANT PipelineIsRule
+INVARIANT UnwindInvertsSort
+INVARIANT RelabelInvariant
+INVARIANT ScoresAreNegatedRanks
+INVARIANT LadderSymmetric
+INVARIANT LadderSize
+CHECK_DEADLOCK FALSE
+"""
+
+
+def outcome(run, maxn, defect="FALSE", expect_violation=None):
+    cfg = OUTCOME_CFG % dict(defect=defect, maxn=maxn)
+    return run_mc(run, "MC_Outcome", cfg, "outcome-n%d-%s" % (maxn, defect), emit=False, expect_violation=expect_violation)
